@@ -34,8 +34,8 @@ def build(rng, tier):
                             inst = f"{pid}_{j}_{t}_{sd}"
                             ops = [f"eng perturb {1 + r2.below(10 ** 9)}", f"eng new {inst} {pid} par {t}"] + engcheck.load_ops(inst, inp) + [f"eng run {inst}", f"eng dump {inst}", "eng perturb 0"]
                             cases.append(engcheck.Case(pid, inst, ops, {"inp": inp, "kind": f"{kind}{'+irp' if irp else ''}", "threads": t,
-                                                                       "class": "F5" if kind == "lat" and has_agg_over_lat(p) else None}))
-    # fixed witness of finding F5: an aggregate over a lattice in parallel mode (re-queued rows are indexed twice)
+                                                                       "was": "F5" if kind == "lat" and has_agg_over_lat(p) else None}))
+    # witness of finding F5 (fixed by 058163a; must pass): an aggregate over a lattice in parallel mode (re-queued rows were indexed twice)
     w = {"rels": [{"arity": 3}, {"arity": 1}, {"arity": 3, "lat": "min"}, {"arity": 2}],
          "rules": [{"heads": [(2, [("var", 0), ("var", 1), ("var", 2)])], "body": [("cl", 0, [("v", 0), ("v", 1), ("v", 2)], [])]},
                    {"heads": [(2, [("var", 0), ("var", 3), ("add", ("var", 2), ("var", 4))])],
@@ -46,22 +46,12 @@ def build(rng, tier):
         progs[pid] = w; mods.append((pid, eng.rs_module(pid, w, macro=macro)))
         inst = pid + "_0"
         ops = [f"eng new {inst} {pid}" + (" par 4" if macro == "ascent_par" else "")] + engcheck.load_ops(inst, winp) + [f"eng run {inst}", f"eng dump {inst}"]
-        cases.append(engcheck.Case(pid, inst, ops, {"inp": winp, "kind": "F5-witness", "threads": 4, "class": "F5" if macro == "ascent_par" else None}))
+        cases.append(engcheck.Case(pid, inst, ops, {"inp": winp, "kind": "F5-witness", "threads": 4, "was": "F5" if macro == "ascent_par" else None}))
     return progs, mods, cases
 
 
 def known(c, p, impl, model):
-    if c.meta.get("class") == "F5":
-        # how often a row is re-queued depends on the schedule, so the over-count is not predictable exactly: the failure is
-        # attributed to F5 only if every relation except the heads of rules aggregating over a lattice is correct
-        dump = next((l for l, o in zip(impl, c.ops) if o.startswith("eng dump")), "")
-        if not dump.startswith("r0:"): return None
-        sets, _ = engcheck.dump_sets(dump)
-        spec = engcheck.spec_sets(p, c.meta["inp"])
-        agg_heads = {h for ru in p["rules"] for h, _ in ru["heads"] if any(it[0] == "agg" and p["rels"][it[4]].get("lat") for it in ru["body"])}
-        if any(sets.get(r, set()) != spec[r] for r in range(len(p["rels"])) if r not in agg_heads): return None
-        return ("F5", "ascent_par!: non-key lattice indices are Vec-backed, a re-queued row is indexed again; an aggregate over the lattice sees the row more than once")
-    return None
+    return None      # F5 (aggregates over a lattice in parallel mode) is fixed by 058163a: nothing is attributed any more
 
 
 def has_agg_over_lat(p):
